@@ -71,6 +71,55 @@ fn read_copy(copy: &[u8], intact: &[Value]) -> J {
     }
 }
 
+type Dyn = avro_verif_harness::dynde::Dyn;
+
+/// One session with a (damaged) copy: polls of the value iterator, the conversion `into_deser_iter` before
+/// poll number `switch_at` (None: never), polls of the deserializing iterator; polling goes on after an
+/// error / the end (`extra` more polls).  Every call and its result is recorded; nothing is judged here.
+fn session(copy: &[u8], intact: &[Value], intact_d: &[Dyn], switch_at: Option<usize>, extra: usize) -> J {
+    let r = guarded(std::panic::AssertUnwindSafe(|| {
+        let mut calls: Vec<J> = Vec::new();
+        let rd = match Reader::new(copy) {
+            Ok(r) => r,
+            Err(_) => return json!({"open_ok": false, "calls": []}),
+        };
+        let mut delivered = 0usize;
+        let mut quiet = 0usize; // polls after the first err / end
+        let mut n = 0usize;
+        let mut rd = Some(rd);
+        let mut de: Option<apache_avro::reader::ReaderDeser<'_, &[u8], Dyn>> = None;
+        loop {
+            if switch_at == Some(n) && de.is_none() {
+                de = Some(rd.take().unwrap().into_deser_iter::<Dyn>());
+                calls.push(json!({"m": "s", "r": "switch", "ord": 0, "match": true}));
+            }
+            let (m, res): (&str, Option<Result<bool, ()>>) = if let Some(d) = de.as_mut() {
+                ("d", d.next().map(|x| x.map(|v| intact_d.get(delivered) == Some(&v)).map_err(|_| ())))
+            } else {
+                ("v", rd.as_mut().unwrap().next().map(|x| x.map(|v| intact.get(delivered) == Some(&v)).map_err(|_| ())))
+            };
+            match res {
+                Some(Ok(same)) => {
+                    delivered += 1;
+                    calls.push(json!({"m": m, "r": "item", "ord": small(delivered), "match": same}));
+                    if quiet > 0 { quiet += 1; }
+                }
+                Some(Err(())) => { calls.push(json!({"m": m, "r": "err", "ord": 0, "match": true})); quiet += 1; }
+                None => { calls.push(json!({"m": m, "r": "end", "ord": 0, "match": true})); quiet += 1; }
+            }
+            n += 1;
+            // a conversion scheduled for later must still take place
+            let pending = matches!(switch_at, Some(k) if k >= n) && de.is_none();
+            if (quiet > extra && !pending) || n > 400 { break; }
+        }
+        json!({"open_ok": true, "calls": calls})
+    }));
+    match r {
+        Ok(mut j) => { j["panic"] = J::from(false); j }
+        Err(_) => json!({"open_ok": false, "calls": [], "panic": true}),
+    }
+}
+
 fn cmd_run(a: &Args) -> i32 {
     let mut out = open_out(a.req("out"));
     let thorough = a.get("tier") == Some("thorough");
@@ -131,6 +180,38 @@ fn cmd_run(a: &Args) -> i32 {
                         ev["kind"] = J::from("magic"); ev["k"] = small(off + 1); ev["mask"] = J::from(mask);
                         writeln!(out, "{ev}").unwrap();
                         id += 1;
+                    }
+                }
+                // sessions (call sequences) on the small files: every damage x every position of the conversion
+                if *per_block == 3 {
+                    let intact_d: Vec<Dyn> = Reader::new(&file[..]).unwrap().into_deser_iter::<Dyn>().map(|x| x.unwrap()).collect();
+                    let mut damages: Vec<(&str, usize, u8, Vec<u8>)> = Vec::new();
+                    for k in 0..=file.len() { damages.push(("cut", k, 0, file[..k].to_vec())); }
+                    for b in &sp.boundaries {
+                        for off in [b - 16, b - 9, b - 1] {
+                            let mut copy = file.clone();
+                            copy[off] ^= 0x80;
+                            damages.push(("marker", off + 1, 0x80, copy));
+                        }
+                    }
+                    { let mut copy = file.clone(); copy[3] ^= 0x01; damages.push(("magic", 4, 0x01, copy)); }
+                    for (kind, k, mask, copy) in &damages {
+                        // the plain session tells how many polls it takes to the first err / end
+                        let plain = session(copy, &intact, &intact_d, None, 2);
+                        let q = plain["calls"].as_array().map(|c| c.len()).unwrap_or(0);
+                        let mut variants: Vec<Option<usize>> = vec![None];
+                        if plain["open_ok"] == J::from(true) {
+                            // all positions up to and just after quiescence; thorough: all, quick: rotating subset
+                            for p in 0..=q { if thorough || (p + k + seed) % 3 == 0 || p + 3 >= q { variants.push(Some(p)); } }
+                        }
+                        for sw in variants {
+                            let mut ev = if sw.is_none() { plain.clone() } else { session(copy, &intact, &intact_d, sw, 2) };
+                            ev["ev"] = J::from("session"); ev["id"] = small(id); ev["fid"] = small(fid);
+                            ev["kind"] = J::from(*kind); ev["k"] = small(*k); ev["mask"] = J::from(*mask);
+                            ev["switch_at"] = match sw { Some(p) => small(p), None => J::from(-1) };
+                            writeln!(out, "{ev}").unwrap();
+                            id += 1;
+                        }
                     }
                 }
                 fid += 1;
